@@ -21,9 +21,10 @@ copied statements keep their original line numbers: reports cite the helper's re
 Conditions for inlining H (all of them, else H is left alone and the rules see it as an ordinary callee):
   * H is a module-level, undecorated, non-generator, non-recursive function whose name starts with '_';
   * H is role-bearing: it calls one of its own parameters with *args / **kwargs (the user's function), an
-    analysis entry point imported from the introspection modules or a method of the Store interface - or calls
-    such a helper;
-  * H does not assign a declared module global a non-None value (the context setter is a role anchor itself);
+    analysis entry point imported from the introspection modules or a method of the Store interface, or declares a
+    module global (sets / drops the evaluation context) - or calls such a helper;
+  * H is not the top-level role itself (a function that assigns a declared module global a non-None value AND
+    (transitively) calls the user's function); a pure setter / dropper of module state is inlined like any helper;
   * every reference to H in the package is a direct call that is the whole value of an expression statement,
     an assignment or a return, inside a module-level function of the same module - a private one when H
     (transitively) calls the user's function: the function a public entry point hands the evaluation to is
@@ -89,6 +90,8 @@ def _direct_user_call(fd: FuncDef, role_names: Set[str] = frozenset()) -> bool: 
             return True
         if isinstance(n.func, ast.Attribute) and n.func.attr in role_names:
             return True
+    if role_names and any(isinstance(n, ast.Global) for n in _own_walk(fd)):
+        return True  # sets / drops module state of the API module (the evaluation-context global)
     return False
 
 
@@ -426,8 +429,8 @@ def normalise(tree: ast.Module, protected: Set[str], role_names: Set[str] = froz
         for h, fd in funcs.items():
             if not h.startswith("_") or h in protected or h not in bearing:
                 continue
-            if fd.decorator_list or _sets_global(fd) or not sites[h] or other_refs[h]:
-                continue
+            if fd.decorator_list or (_sets_global(fd) and h in user_bearing) or not sites[h] or other_refs[h]:
+                continue  # the function that sets the context global AND runs the user's function is the top-level role itself
             if any(isinstance(n, (ast.Yield, ast.YieldFrom, ast.Await)) for n in _own_walk(fd)):
                 continue
             if any(caller is fd for caller, _s, _c in sites[h]):
